@@ -70,4 +70,87 @@ pub open spec fn aff_shape_ok<const K: usize>(a: AArena<K>, in_dim: usize) -> bo
     forall|i: usize| #![trigger a[i].value] a.dom().contains(i) ==> a[i].value.aff.ok() && a[i].value.aff.mat.ncols() == in_dim
         && (!a[i].isleaf ==> 1 <= a[i].value.aff.mat.nrows() < 16 && (1usize << (a[i].value.aff.mat.nrows() as usize)) <= K)
 }
+// both trees denote the same partial function on inputs of the tree's dimension
+#[verifier::opaque]
+pub open spec fn same_denotation<const K: usize>(a0: AArena<K>, a1: AArena<K>, root: usize, in_dim: usize) -> bool {
+    forall|h0: Map<usize, nat>, h1: Map<usize, nat>, x: V| #![trigger tree_fn(a0, h0, root, x), tree_fn(a1, h1, root, x)]
+        ranked_down(a0, h0) && ranked_down(a1, h1) && x.len() == in_dim ==> tree_fn(a1, h1, root, x) == tree_fn(a0, h0, root, x)
+}
+
+pub proof fn lemma_same_denotation_refl<const K: usize>(a: AArena<K>, root: usize, in_dim: usize)
+    requires kids_ok(a), a.dom().contains(root)
+    ensures same_denotation(a, a, root, in_dim)
+{
+    reveal(same_denotation);
+    assert forall|h0: Map<usize, nat>, h1: Map<usize, nat>, x: V| #![trigger tree_fn(a, h0, root, x), tree_fn(a, h1, root, x)]
+        ranked_down(a, h0) && ranked_down(a, h1) implies tree_fn(a, h1, root, x) == tree_fn(a, h0, root, x) by {
+        lemma_tree_fn_rank_indep(a, h0, h1, root, x);
+    }
+}
+// the denoted value does not depend on which height map witnesses acyclicity
+pub proof fn lemma_tree_fn_rank_indep<const K: usize>(a: AArena<K>, h0: Map<usize, nat>, h1: Map<usize, nat>, idx: usize, x: V)
+    requires ranked_down(a, h0), ranked_down(a, h1), kids_ok(a), a.dom().contains(idx)
+    ensures tree_fn(a, h1, idx, x) == tree_fn(a, h0, idx, x)
+    decreases h0[idx]
+{
+    let nd = a[idx];
+    if !nd.isleaf {
+        let l = decide(&nd.value.aff, x);
+        if 0 <= l < K && nd.children[l].is_some() {
+            assert(h0[nd.children[l].unwrap()] < h0[idx]);
+            assert(h1[nd.children[l].unwrap()] < h1[idx]);
+            lemma_tree_fn_rank_indep(a, h0, h1, nd.children[l].unwrap(), x);
+        }
+    }
+}
+
+// ---- effect of apply_func (proved in unit pwl_tree) ----
+pub open spec fn r_ok_leaf<const K: usize>(a: AArena<K>, i: usize) -> bool { a.dom().contains(i) && a[i].isleaf }
+pub open spec fn leaf_done<const K: usize>(a0: AArena<K>, a1: AArena<K>, i: usize, f: &AffFunc) -> bool {
+    a1[i].value.state == a0[i].value.state && a1[i].value.aff.ok() && a1[i].value.aff.mat.ncols() == a0[i].value.aff.mat.ncols() && a1[i].value.aff.mat.nrows() == f.mat.nrows()
+        && forall|x: V| x.len() == a0[i].value.aff.mat.ncols() ==> #[trigger] a1[i].value.aff.ap(x) =~= f.ap(a0[i].value.aff.ap(x))
+}
+
+// node `node` got its function replaced by `f` after it; nothing else changed
+pub open spec fn composed_at<const K: usize>(a0: AArena<K>, a1: AArena<K>, node: usize, f: &AffFunc) -> bool {
+    &&& same_shape(a0, a1) && a0.dom().contains(node)
+    &&& a1[node].value.state == a0[node].value.state
+    &&& a1[node].value.aff.ok() && a1[node].value.aff.mat.ncols() == a0[node].value.aff.mat.ncols() && a1[node].value.aff.mat.nrows() == f.mat.nrows()
+    &&& forall|x: V| x.len() == a0[node].value.aff.mat.ncols() ==> #[trigger] a1[node].value.aff.ap(x) =~= f.ap(a0[node].value.aff.ap(x))
+    &&& forall|i: usize| a0.dom().contains(i) && i != node ==> #[trigger] a1[i] == a0[i]
+}
+
+// effect of apply_func: every terminal composed with f, decisions untouched
+pub open spec fn all_leaves_composed<const K: usize>(a0: AArena<K>, a1: AArena<K>, f: &AffFunc) -> bool {
+    &&& same_shape(a0, a1)
+    &&& forall|i: usize| #![trigger a1[i]] a0.dom().contains(i) && !a0[i].isleaf ==> a1[i] == a0[i]
+    &&& forall|i: usize| #![trigger a1[i]] a0.dom().contains(i) && a0[i].isleaf ==> a1[i].value.state == a0[i].value.state
+            && a1[i].value.aff.ok() && a1[i].value.aff.mat.ncols() == a0[i].value.aff.mat.ncols() && a1[i].value.aff.mat.nrows() == f.mat.nrows()
+            && forall|x: V| x.len() == a0[i].value.aff.mat.ncols() ==> #[trigger] a1[i].value.aff.ap(x) =~= f.ap(a0[i].value.aff.ap(x))
+}
+
+// apply_func(a) is the special case of composition with an affine g:  h(x) == a(f(x)), undefined where f is
+pub proof fn lemma_apply_func_tree_fn<const K: usize>(a0: AArena<K>, a1: AArena<K>, h: Map<usize, nat>, f: &AffFunc, idx: usize, x: V, in_dim: usize)
+    requires all_leaves_composed(a0, a1, f), ranked_down(a0, h), kids_ok(a0), a0.dom().contains(idx), aff_shape_ok(a0, in_dim), x.len() == in_dim
+    ensures tree_fn(a1, h, idx, x) == (match tree_fn(a0, h, idx, x) { Some(y) => Some(f.ap(y)), None => None })
+    decreases h[idx]
+{
+    let nd = a0[idx];
+    if nd.isleaf {
+        assert(a1[idx].isleaf);
+    } else {
+        assert(a1[idx] == a0[idx]);
+        let l = decide(&nd.value.aff, x);
+        if 0 <= l < K && nd.children[l].is_some() && h[nd.children[l].unwrap()] < h[idx] {
+            lemma_apply_func_tree_fn(a0, a1, h, f, nd.children[l].unwrap(), x, in_dim);
+        }
+    }
+}
+
+
+// g after f as partial functions
+pub open spec fn and_then_fn<const K: usize>(a0: AArena<K>, h0: Map<usize, nat>, al: AArena<K>, hl: Map<usize, nat>, rl: usize, idx: usize, x: V) -> Option<V> {
+    match tree_fn(a0, h0, idx, x) { None => None, Some(y) => tree_fn(al, hl, rl, y) }
+}
+
 // ---- end pwl_spec ----
